@@ -911,3 +911,80 @@ Theorem roundtrip_refuted_stale_item :
   /\ snd (load_tree leaf lvalidate lto_python ldefault l_callable lflag (vrun []) f50_tree true w0 []
             (snd (build_cfg leaf ldefault l_callable w0 f50_fs)) false [] f50_fs) = OErr (EValidation (sa "items[0].need")).
 Proof. repeat split; vm_compute; reflexivity. Qed.
+
+(* ------------------------------------------------------------------------------------------------ *)
+(* the Boolean verdict the correspondence stream compares is implied by the relation of the theorems *)
+(* ------------------------------------------------------------------------------------------------ *)
+Fixpoint pyval_eqb_refl (v : pyval) : pyval_eqb v v = true.
+Proof.
+  destruct v; cbn [pyval_eqb].
+  - reflexivity.
+  - apply eqb_reflx.
+  - apply Z.eqb_refl.
+  - destruct f; cbn [sf_eqb]; try reflexivity; try apply eqb_reflx.
+    rewrite eqb_reflx, Pos.eqb_refl, Z.eqb_refl. reflexivity.
+  - apply str_eqb_refl.
+  - apply str_eqb_refl.
+  - rewrite N.eqb_refl. cbn [andb]. revert l. fix IHl 1. intros [|a l]; [reflexivity|]. rewrite pyval_eqb_refl, IHl. reflexivity.
+  - revert l. fix IHl 1. intros [|a l]; [reflexivity|]. rewrite pyval_eqb_refl, IHl. reflexivity.
+  - rewrite N.eqb_refl. cbn [andb]. revert d. fix IHd 1. intros [|[k v] d]; [reflexivity|]. rewrite !pyval_eqb_refl, IHd. reflexivity.
+  - unfold bytes_eqb. fold str_eqb. rewrite !str_eqb_refl, N.eqb_refl. reflexivity.
+  - apply N.eqb_refl.
+Qed.
+
+Lemma strs_eqb_refl : forall l : list str, list_eqb str_eqb l l = true.
+Proof. induction l as [|a l IH]; [reflexivity|]. cbn [list_eqb]. rewrite str_eqb_refl, IH. reflexivity. Qed.
+
+Section B.
+  Variable F : Type.
+  Notation node := (node F).
+  Notation same_slot := (same_slot F).
+  Notation same_slotb := (same_slotb F).
+
+  Definition pairb (ca cb : cfg) (kn : str * node) : bool :=
+    match dget (fst kn) (c_data ca), dget (fst kn) (c_data cb) with
+    | Some va, Some vb => same_slotb (snd kn) va vb
+    | _, _ => false
+    end.
+  Definition dynb (ca cb : cfg) : bool :=
+    list_eqb str_eqb (c_dyn ca) (c_dyn cb)
+    && forallb (fun k => match dget k (c_data ca), dget k (c_data cb) with
+                         | Some (VLeaf x), Some (VLeaf y) => pyval_eqb x y
+                         | _, _ => false
+                         end) (c_dyn cb).
+
+  Lemma sameb_sub_unfold : forall dyn vs fs ca cb,
+    same_slotb (NSub dyn vs fs) (VCfg ca) (VCfg cb) = forallb (pairb ca cb) fs && dynb ca cb.
+  Proof.
+    intros. cbn [Roundtrip.same_slotb]. unfold dynb. rewrite <- andb_assoc. f_equal.
+    induction fs as [|[k nd'] l IH]; [reflexivity|]. cbn [forallb]. rewrite <- IH. reflexivity.
+  Qed.
+
+  Lemma sameb_n : forall n nd, (nsize F nd <= n)%nat -> forall a b, same_slot nd a b -> same_slotb nd a b = true.
+  Proof.
+    induction n as [|n IH]; intros nd Hsz a b H; [destruct nd; cbn [nsize] in Hsz; lia|].
+    assert (Hcfg : forall fs ca cb, (fsize F fs <= n)%nat -> same_cfg F fs ca cb -> forallb (pairb ca cb) fs && dynb ca cb = true).
+    { intros fs ca cb Hs (H1 & H2 & H3). apply andb_true_iff. split.
+      - apply forallb_forall. intros [k nd'] Hin. rewrite Forall_forall in H1. specialize (H1 _ Hin).
+        unfold slot_pair in H1. unfold pairb. cbn [fst snd] in *.
+        destruct (dget k (c_data ca)) as [va|]; [|destruct H1]. destruct (dget k (c_data cb)) as [vb|]; [|destruct H1].
+        apply IH; [pose proof (fsize_in F _ _ _ Hin); lia | exact H1].
+      - unfold dynb. rewrite H2, strs_eqb_refl. cbn [andb]. apply forallb_forall. intros k Hk.
+        rewrite Forall_forall in H3. destruct (H3 _ Hk) as [x [Ha Hb]]. rewrite Ha, Hb. apply pyval_eqb_refl. }
+    destruct nd as [f|d1 v1 f1|req v1 f1].
+    - destruct a, b; cbn [Roundtrip.same_slot] in H; try (destruct H; fail). subst. cbn [Roundtrip.same_slotb]. apply pyval_eqb_refl.
+    - destruct a as [xa|ca|la], b as [xb|cb|lb]; try (cbn [Roundtrip.same_slot] in H; destruct H; fail).
+      apply (proj1 (same_sub_unfold F d1 v1 f1 ca cb)) in H. rewrite sameb_sub_unfold. apply Hcfg; [rewrite nsize_sub in Hsz; lia | exact H].
+    - assert (Hs' : (fsize F f1 <= n)%nat).
+      { change (nsize F (NCfgList req v1 f1)) with (nsize F (NSub false v1 f1)) in Hsz. rewrite nsize_sub in Hsz. lia. }
+      destruct a as [x|ca|la], b as [y|cb|lb]; try (cbn [Roundtrip.same_slot] in H; destruct H; fail).
+      + cbn [Roundtrip.same_slot] in H. destruct H as [-> ->]. reflexivity.
+      + cbn [Roundtrip.same_slot] in H. destruct y; try (destruct H; fail). subst la. reflexivity.
+      + apply (proj1 (same_list_unfold F req v1 f1 la lb)) in H. revert lb H. induction la as [|xa la IHl]; intros [|yb lb] H; inversion H; subst; [reflexivity|].
+        change (same_slotb (NSub false [] f1) (VCfg xa) (VCfg yb) && same_slotb (NCfgList req v1 f1) (VList la) (VList lb) = true).
+        rewrite sameb_sub_unfold, Hcfg by assumption. cbn [andb]. apply IHl. assumption.
+  Qed.
+
+  Theorem same_values_verdict : forall fs ca cb, same_values F fs ca cb -> same_valuesb F fs ca cb = true.
+  Proof. intros. unfold same_valuesb. eapply sameb_n; [apply le_n | exact H]. Qed.
+End B.
